@@ -148,4 +148,133 @@ class C06(Prop):
         return "%s len=%s" % (w[0][0], n if n <= 3 else ("4-6" if n <= 6 else ("7-12" if n <= 12 else "13+")))
 
 
-PROPS = {p.id: p for p in [C06()]}
+# ---------------------------------------------------------------------------
+# C19: reference layout rules, written independently of the Coq model
+# ---------------------------------------------------------------------------
+_SCALAR_SIZE = {"Float16": 2, "Int32": 4, "UInt32": 4, "Float32": 4, "Float64": 8}
+
+
+def _parse_ty(w, pos):
+    k = w[pos]
+    if k == "s":
+        return ("s", w[pos + 1]), pos + 2
+    if k == "E":
+        return ("E", w[pos + 1]), pos + 2
+    if k == "V":
+        return ("V", w[pos + 1], int(w[pos + 2])), pos + 3
+    if k == "A":
+        t, p2 = _parse_ty(w, pos + 2)
+        return ("A", int(w[pos + 1]), t), p2
+    if k == "S":
+        n = int(w[pos + 1])
+        pos += 2
+        ms = []
+        for _ in range(n):
+            t, pos = _parse_ty(w, pos)
+            ms.append(t)
+        return ("S", ms), pos
+    raise ValueError(k)
+
+
+def _rup(x, a):
+    return (x + a - 1) // a * a
+
+
+def _ref_layout(t, metal, base, fields):
+    """(size, align) under the reference rules; appends the offset of every leaf to fields. None = no layout."""
+    k = t[0]
+    if k in ("s", "E"):
+        z = _SCALAR_SIZE.get(t[1])
+        if z is None:
+            return None
+        fields.append(base)
+        return z, z
+    if k == "V":
+        z = _SCALAR_SIZE.get(t[1])
+        if z is None:
+            return None
+        fields.append(base)
+        if metal:
+            n = 1
+            while n < t[2]:
+                n *= 2
+            return z * n, z * n
+        return z * t[2], z
+    if k == "A":
+        probe = _ref_layout(t[2], metal, 0, [])
+        if probe is None:
+            return None
+        z, a = probe
+        for i in range(t[1]):
+            _ref_layout(t[2], metal, base + i * z, fields)
+        return z * t[1], a
+    if k == "S":
+        cur, al = 0, 1
+        for m in t[1]:
+            probe = _ref_layout(m, metal, 0, [])
+            if probe is None:
+                return None
+            z, a = probe
+            cur = _rup(cur, a)
+            _ref_layout(m, metal, base + cur, fields)
+            cur += z
+            al = max(al, a)
+        return _rup(cur, al), al
+    raise ValueError(k)
+
+
+class C19(Prop):
+    id = "C19"
+    gens = ["GenLayout"]
+    header = 0
+    n_quick = 4000
+    n_thorough = 150000
+    design_ref = "DESIGN.md §4 C19"
+    assumptions = [
+        "reference layout rules = Layout.v spec_sa/spec_fields (trusted statement of HLSL structured-buffer packing and Metal struct layout)",
+        "model: coq/model/Layout.v mirrors get_type_layout/get_field_offsets/check_layout (hand-written; tied by correspondence)",
+        "scalar sizes and the no-layout scalar arm regenerated from ir/src/ir_types.rs and ir/src/layout_checker.rs",
+        "u32 arithmetic modelled in N (no claim for sizes >= 2^32); matrices/objects have no layout (UNKNOWN)",
+    ]
+
+    def oracle(self, case, impl):
+        if impl.startswith("REJECT") or impl.startswith("BAD"):
+            return None
+        w = case.split()
+        t, _ = _parse_ty(w, 1)
+        fh, fm = [], []
+        lh = _ref_layout(t, False, 0, fh)
+        lm = _ref_layout(t, True, 0, fm)
+        if impl == "ACCEPT":
+            if lh is None or lm is None:
+                return "accepted a type without a layout"
+            if _rup(lh[0], lh[1]) != _rup(lm[0], lm[1]):
+                return "accepted, but total size is %d under HLSL packing and %d under Metal" % (_rup(lh[0], lh[1]), _rup(lm[0], lm[1]))
+            if fh != fm:
+                d = next(i for i in range(len(fh)) if fh[i] != fm[i])
+                return "accepted, but field #%d is at offset %d under HLSL packing and %d under Metal" % (d, fh[d], fm[d])
+            return None
+        if impl.startswith("MISMATCH"):
+            n = [int(x) for x in impl.split()[1:]]
+            if lh is None or lm is None:
+                return "reports sizes for a type without a layout"
+            truth = [_rup(lh[0], lh[1]), lh[1], _rup(lm[0], lm[1]), lm[1]]
+            if n != truth:
+                return "rejection reports size/align %s, the true values are %s" % (n, truth)
+            return None
+        if impl.startswith("PANIC"):
+            return "layout validation panicked"
+        return None
+
+    def nontrivial(self, case, impl):
+        # nested aggregate or an accepted multi-member struct
+        w = case.split()
+        return w.count("S") + w.count("A") >= 2 or (impl == "ACCEPT" and len(w) > 5)
+
+    def kind(self, case):
+        w = case.split()
+        depth = w.count("S") + w.count("A")
+        return "use=%s aggregates=%s" % (w[0], depth if depth < 4 else "4+")
+
+
+PROPS = {p.id: p for p in [C06(), C19()]}
